@@ -11,6 +11,7 @@ class ScriptJob(Job):
         self._program = None
         self._parser = Parser()
         self._machine = Machine()
+        self._prepared = False
 
     @staticmethod
     def from_file(file_name):
@@ -51,9 +52,18 @@ class ScriptJob(Job):
     def get_machine_state(self) -> MachineState:
         return self._machine.get_state()
 
-    def execute(self):
+    def prepare(self):
+        # Arm the machine now. A stop request that arrives before execute()
+        # is reached then finds something to stop, and run() leaves it be.
         if self._program is not None:
             self._machine.reset()
+            self._prepared = True
+
+    def execute(self):
+        if self._program is not None:
+            if not self._prepared:
+                self._machine.reset()
+            self._prepared = False
             self._machine.run(self._program)
 
     def request_stop(self):
